@@ -72,6 +72,8 @@ func gobRoundTrip(f *vstat.Failure, kind string, doc []byte) {
 				known = "K3"
 			case at.Kind == "CHANGED" && isEmptyArray(at.A) && at.B == nil && underPayload(at.Path, roots):
 				known = "K4"
+			case at.Kind == "CHANGED" && isEmptyArray(at.A) && at.B == nil && model.LastToken(at.Path) == "items" && !underPayload(at.Path, roots):
+				known = "K7" // the empty tuple `items: []` of a schema (outside the normal form)
 			}
 			f.AddKnown(known, at.Kind, at.Path, "%s", at.String())
 		}
@@ -88,11 +90,16 @@ func TestC14(t *testing.T) {
 			o.NoZeroValid, o.NoEmptyInFree = true, true
 			r.Excluded("K3/K4 shapes (zero validations, empty arrays in payloads) not generated")
 		}
+		if gen.Pct(t, "with empty typed lists", 30) {
+			// beyond the normal form: consumes/produces/tags/required/parameters/... written as []
+			o.EmptyListPct = 10
+		}
 		v := gen.NewV(t, o)
 		c := codecCase{Kind: kind, Doc: string(mustJSON(v.Instance(kind)))}
 		f := &vstat.Failure{}
 		gobRoundTrip(f, c.Kind, []byte(c.Doc))
 		r.Eval()
+		r.LabelIf(v.EmptyList, "empty typed list")
 		vocabLabels(r, v, kind)
 		emptySec := strings.Contains(c.Doc, `"security":[]`) || strings.Contains(c.Doc, `{}`)
 		r.LabelIf(strings.Contains(c.Doc, `"security":[]`), "empty security")
